@@ -439,9 +439,12 @@ class Run:
             self.pending[w] = op
             self.cv.notify_all()
             while True:
+                before = self.ptr
                 dec = self._decide(w, op)
                 if dec is not None:
                     break
+                if self.ptr != before:
+                    self.cv.notify_all()        # steps were dropped: it may be another writer's turn now
                 self.cv.wait()
             self.active = w
             del self.pending[w]
@@ -504,7 +507,9 @@ class Run:
                 with self.cv:
                     ok = self.cv.wait_for(lambda: len(self.finished | self.parked) == len(self.writers), timeout=30)
                 if not ok:
-                    raise RuntimeError(f'schedule stuck: pending={self.pending} ptr={self.ptr}')
+                    raise RuntimeError(f'schedule stuck: pending={self.pending} ptr={self.ptr} active={self.active} '
+                                       f'finished={self.finished} parked={self.parked} '
+                                       f'path={[(e["w"], e["op"], e["res"]) for e in self.path]}')
         finally:
             RUN = None
 
@@ -623,8 +628,11 @@ def new_of_script(w: str, steps: list, complete: bool, text: bool, j0: int = 0):
         data = ''.join(parts).encode('utf8')
     else:
         data = b''.join(parts)
-    if not complete:
-        data += b'<never written: the body did not finish>'
+    # (complete or not: the bytes are those of the whole body as far as the schedule defines it - a body that
+    # is cut short by an exception or a kill can at most have produced a prefix, and a prefix that is renamed
+    # over the destination is rejected by the specification because the body had not finished)
+    if not data:
+        data = b''
     return data
 
 
